@@ -968,7 +968,11 @@ def run(ctx: vlib.Ctx):
         "allow_deserialization_not_by_alias, kw_only + defaults, ADD_SERIALIZATION_CONTEXT, strategy dialects) for the oracles; "
         "format family: msgpack/orjson/json/yaml/toml mixins vs Encoder/Decoder/one-shot functions over int/str/bool/date/datetime/"
         "time/UUID/bytes/bytearray with user dialects (call-time or Config.dialect) whose strategies and options overlap the "
-        "format's built-in dialect")
+        "format's built-in dialect; mapping keys other than str, tuples and FOREIGN documents (perturbed, re-dumped with other library "
+        "options) for every decoding entry point. Round 2: classes spread over library modules with EQUAL __qualname__ meeting in one "
+        "holder/shape; modules with `from __future__ import annotations`; compile-mode variants of every scenario (all classes lazy + a "
+        "call dialect, only top classes as roots); componentwise decomposition of every root (tuple items, elements, Optional, "
+        "dataclass fields) for encoders, decoders and their errors")
     ctx.trusted += [
         "C15: harness/c15lib.py materialiser (Python source of the class table and the Coq env denote the same schema; "
         "predicted_has_method = which plain classes own __mashumaro_to_dict__), canonicaliser and exception reduction "
